@@ -56,6 +56,8 @@ COLS = [('slice', [1, None]), ('list', [2, 0]), ('perm', [1, 2, 0]),
         ('slice', [-2, None]), ('slice', [None, None, -1]), ('list', [-1, 0]),
         # boolean masks (full width; width 2, valid only after a narrowing selection), runs of negative indices
         ('mask', [False, True, True, False, True]), ('mask', [False, True]), ('list', [-2, -1]),
+        # a boolean mask written as a plain Python list
+        ('masklist', [True, False, True, True, False]),
         # a single channel as an integer (the result loses its channel axis), an empty selection
         ('int', 2), ('int', -1), ('list', []),
         # an index ARRAY with a negative entry; the harness hands out ONE array object per selector, as a caller who keeps its
@@ -103,6 +105,8 @@ def arg_value(arg):
             return _ARR_CACHE[key]
         if arg['c'] == 'mask':
             return np.array(arg['v'], dtype=bool)
+        if arg['c'] == 'masklist':
+            return [bool(x) for x in arg['v']]
         if arg['c'] == 'int':
             return int(arg['v'])
         return list(arg['v'])
